@@ -335,7 +335,8 @@ class ManifestContext:
         period.finish_setup(
             mode=opts.mode, timing=timing, base_url=base_url,
             use_base_urls=opts.useBaseUrls)
-        if is_https_request():
+        if is_https_request() and opts.useBaseUrls:
+            # (without base URLs the Period has no baseURL)
             period.baseURL = period.baseURL.replace('http://', 'https://')
         for adp in period.adaptationSets:
             if not adp.encrypted:
